@@ -43,6 +43,11 @@ class Pair:
   def __init__(self, left, right):
     self.left, self.right = left, right
 
+  def __eq__(self, other):
+    return isinstance(other, Pair) and self.left == other.left and self.right == other.right
+
+  __hash__ = None
+
 
 def _register_pair():
   try:
